@@ -337,7 +337,7 @@ def main(argv):
         if s.get('kind') == 'replay':
             import replay
             t1 = time.time()
-            rr = replay.run_harness(s['mode'], timeout=s.get('timeout', 900), hooks=bool(s.get('hooks')))
+            rr = replay.run_harness(s['mode'], timeout=s.get('timeout', 900 if a.tier != 'thorough' else 3600), hooks=bool(s.get('hooks')), tier=a.tier)
             last = [l for l in (rr.get('log') or '').split('\n') if l.startswith(('NONE', 'WITNESS'))]
             out = {'name': s['name'], 'kind': 'replay (bounded exhaustive enumeration on the real crate)', 'covers': s.get('covers', ''),
                    'outcome': 'fail' if rr['found'] else ('pass' if last else 'error'), 'bound': (last[-1][:300] if last else ''),
